@@ -134,7 +134,7 @@ func readParagraphs(p *Prog, text string) ([]*refPara, string) {
 func normValue(v string) string { return strings.TrimSuffix(v, "\n") }
 
 func checkC08(p *Prog, rp *Report) {
-	rp.Explanation = "C08-ROUND: (*Paragraph).WriteTo and (*ParagraphReader).Next are both interpreted abstractly (writer = recording oracle, reader = scripted oracle fed with exactly the text written): for every paragraph of two fields whose values are all sequences of up to 4 lines drawn from {text, empty, indented, blank-only, text with trailing blanks, a lone dot, text starting with '#'}, with and without a trailing newline, the text written reads back as one paragraph with the same fields in order and the same values up to one trailing newline, and a second write/read cycle changes nothing. C08-NOBLANK: on the same table no written line other than the last is empty or white-space only, and the text ends in exactly one newline. C08-SEP: the encoder writes one blank line before every paragraph but the first; the flag it keeps lives behind pointer receivers on the whole call chain Encode -> encode -> encodeSlice/encodeStruct. an all-empty struct encoded between two others (through NewEncoder / Encode and the reflect model) leaves them two paragraphs. C08-ORDER: the writer walks Order and looks values up by key; no function of package control ranges over a map in an order dependent way."
+	rp.Explanation = "C08-ROUND: (*Paragraph).WriteTo and (*ParagraphReader).Next are both interpreted abstractly (writer = recording oracle, reader = scripted oracle fed with exactly the text written): for every paragraph of two fields whose values are all sequences of up to 4 lines drawn from {text, empty, indented, blank-only, text with trailing blanks, a lone dot, text starting with '#'}, with and without a trailing newline, the text written reads back as one paragraph with the same fields in order and the same values up to one trailing newline, and a second write/read cycle changes nothing. C08-NOBLANK: on the same table no written line other than the last is empty or white-space only, and the text ends in exactly one newline. C08-RWR: documents as the reader sees them (repeated fields, a field repeated after an empty occurrence, comments, folded values, padding) are read, each paragraph written and read again: same fields, same order, same values. C08-SEP: the encoder writes one blank line before every paragraph but the first; the flag it keeps lives behind pointer receivers on the whole call chain Encode -> encode -> encodeSlice/encodeStruct. an all-empty struct encoded between two others (through NewEncoder / Encode and the reflect model) leaves them two paragraphs. C08-ORDER: the writer walks Order and looks values up by key; no function of package control ranges over a map in an order dependent way."
 	rp.NotDecided = "values whose first line is empty and that have further lines are outside the reader's value space except as produced by ' .' (see the known finding); Unicode line separators; io.Writer short writes."
 	rp.Trusted = []string{"go/types, go/ssa", "strings.Split/Join/TrimSuffix/TrimSpace, fmt.Sprintf models", "C07 (the reader agrees with the deb822 reference)"}
 
@@ -272,6 +272,63 @@ func checkC08(p *Prog, rp *Report) {
 			round.bad("control.Paragraph.WriteTo:leading-empty-line", pos, leadingEmptySeen, nil)
 		} else {
 			round.ok("control.Paragraph.WriteTo:leading-empty-line", pos, "values with an empty first line survive too")
+		}
+	}
+
+	// C08-RWR: read, write, read on documents (what the reader produced, not what a caller built)
+	{
+		rwr := rp.Rule("C08-RWR", "read-write-read is the identity on whatever the reader produced", 1)
+		docs := []string{
+			"A:\nA: x\n", "A: x\nA:\n", "A: 1\nB: 2\nA: 3\n", "A:\nB:\nA:\nB: y\n", "A: 1\n\nB: 2\nB:\n",
+			"# c\nA: 1\n# d\nB: 2\n", "A: 1\n more\n .\n last\nB: t\n", "a: 1\nA: 2\n", "A:  padded  \nB:\tt\n",
+			"A: 1\n\n\n\nB: 2\n", "A: x", "A:\n", "A: 1\nA: 1\nA: 1\n", "X-1: v\nX-1:\nX-2: w\n",
+		}
+		var problems []string
+		undec := ""
+		nPara := 0
+	docs:
+		for _, d := range docs {
+			p1, why := readParagraphs(p, d)
+			if strings.HasPrefix(why, "undecided") {
+				undec = fmt.Sprintf("document %q: %s", d, why)
+				break
+			}
+			if why != "" {
+				continue // not a document the reader accepts
+			}
+			for i, para := range p1 {
+				nPara++
+				text, why := writeParagraph(p, para.order, para.values)
+				if why != "" {
+					undec = fmt.Sprintf("document %q, paragraph %d: %s", d, i+1, why)
+					break docs
+				}
+				p2, why := readParagraphs(p, text)
+				if strings.HasPrefix(why, "undecided") {
+					undec = fmt.Sprintf("document %q, paragraph %d written as %q: %s", d, i+1, text, why)
+					break docs
+				}
+				show := func(r *refPara) string {
+					var parts []string
+					for _, k := range r.order {
+						parts = append(parts, fmt.Sprintf("%s=%q", k, normValue(r.values[k])))
+					}
+					return "[" + strings.Join(parts, " ") + "]"
+				}
+				switch {
+				case why != "":
+					problems = append(problems, fmt.Sprintf("document %q: paragraph %d is read as %s, written as %q, and that does not read back (%s)", d, i+1, show(para), text, why))
+				case len(p2) != 1:
+					problems = append(problems, fmt.Sprintf("document %q: paragraph %d is read as %s, written as %q, and that reads back as %d paragraphs", d, i+1, show(para), text, len(p2)))
+				case show(p2[0]) != show(para):
+					problems = append(problems, fmt.Sprintf("document %q: paragraph %d is read as %s, written as %q, and that reads back as %s", d, i+1, show(para), text, show(p2[0])))
+				}
+			}
+		}
+		if undec != "" {
+			rwr.undecided("control.ParagraphReader.Next+control.Paragraph.WriteTo", pos, undec)
+		} else {
+			fillProblems(rwr, "control.ParagraphReader.Next+control.Paragraph.WriteTo", pos, problems, fmt.Sprintf("%d documents (repeated fields, a field repeated after an empty occurrence, comments, folded values with an empty-line marker, names differing in case, padding, runs of blank lines, no final newline), %d paragraphs: each paragraph read, written and read again has the same fields in the same order with the same values", len(docs), nPara))
 		}
 	}
 
